@@ -10,7 +10,7 @@ fn main() {
     let m1 = args[1].clone();
     let m2 = args.get(2).cloned().unwrap_or_else(|| verif_harness::programs::LIB_TEXT.to_string());
     let m3 = args.get(3).cloned().unwrap_or_else(|| verif_harness::programs::SUB_TEXT.to_string());
-    let shape = if std::env::var("PROBE_SHAPE").map_or(false, |s| s == "one-package") { verif_harness::workspace::Shape::OnePackage } else { verif_harness::workspace::Shape::TwoPackages };
+    let shape = std::env::var("PROBE_SHAPE").ok().and_then(|s| verif_harness::workspace::Shape::parse(&s)).unwrap_or(verif_harness::workspace::Shape::TwoPackages);
     let ws = verif_harness::workspace::gen_workspace(shape, &[("m1", &m1), ("m2", &m2), ("sub/m2", &m3)]);
     let a = ws.host.snapshot();
     let texts = [m1.clone(), m2.clone(), m3.clone()];
